@@ -47,6 +47,7 @@ Definition wf_call (f : string) (ats : list vtype) (args : list expr) : bool :=
       is_vec_or_matrix_t (arg_type_of ats 0) &&
       match args with
       | [ESel ms] | [EMatrix (ESel ms)] => nodup_names ms
+      | [EParen _] => false   (* the engine unwraps the parentheses, absentLabels (5b88941) does not: known finding *)
       | _ => true
       end
   | SCDst => is_vec_or_matrix_t (arg_type_of ats 0)
